@@ -205,6 +205,11 @@ func NewWorld(cfg Config, oracles []Oracle, logOn bool) (*World, error) {
 		for _, ch := range Chains {
 			v.Orch[ch] = hub.NewAccount(fmt.Sprintf("orch%d-%s", i, ch))
 			v.ExtKey[ch] = ext.DetEthKey(fmt.Sprintf("val%d-%s", i, ch))
+			if cfg.EdgeKeys && i < 2 {
+				// addresses at the two ends of the key space: 0xff... sorts after every prefix bound built by
+				// appending 0xff, 0x00... is what prefix stripping and number-like parsing get wrong
+				v.ExtKey[ch] = edgeKey(fmt.Sprintf("val%d-%s", i, ch), []byte{0xff, 0x00}[i])
+			}
 		}
 		w.Vals = append(w.Vals, v)
 		for _, ch := range Chains {
@@ -432,6 +437,23 @@ var userKeyCache sync.Map
 
 // userExtKey: deterministic external keys; odd users get addresses that begin with a zero nibble (user 3: a
 // zero byte), the shape that prefix-stripping and number-like parsing of addresses get wrong.
+var edgeKeyCache sync.Map
+
+// edgeKey: a deterministic key whose address starts with the given byte.
+func edgeKey(label string, first byte) *ecdsa.PrivateKey {
+	id := fmt.Sprintf("%s/%02x", label, first)
+	if k, ok := edgeKeyCache.Load(id); ok {
+		return k.(*ecdsa.PrivateKey)
+	}
+	for j := 0; ; j++ {
+		k := ext.DetEthKey(fmt.Sprintf("%s/e%d", id, j))
+		if a := ext.KeyAddr(k); a[0] == first {
+			edgeKeyCache.Store(id, k)
+			return k
+		}
+	}
+}
+
 func userExtKey(i int) *ecdsa.PrivateKey {
 	if k, ok := userKeyCache.Load(i); ok {
 		return k.(*ecdsa.PrivateKey)
